@@ -158,4 +158,105 @@ theorem one_handshake_per_request (c : Cfg) (s : HState) (src : Addr) (nonce cd 
     ∀ o ∈ (step c s (.dgram src (.whoareyou nonce cd enrSeq))).2, ∀ na p, o ≠ .send na p :=
   one_hs_per_request_aux c s src nonce cd enrSeq call hc ha hs
 
+/-! ### non-vacuity and counterexamples -/
+
+namespace C01Ex
+
+def cfg : Cfg where
+  localId := 1
+  localSeq := 1
+  localRec := { id := 1, seq := 1, udp4 := none, udp6 := none }
+  requestRetries := 1
+  requestTimeout := 1000
+  sessionTtl := 100000
+  sessionCap := 100
+  listen := []
+  findnode0 := 0
+
+def na2 : NA := { id := 2, addr := { v6 := false, n := 2 } }
+def na3 : NA := { id := 3, addr := { v6 := false, n := 3 } }
+
+/-- The challenge data of the first WHOAREYOU node 1 sends. -/
+def cd1 : Nat := 1000001
+
+/-- Handshake answering that challenge, claiming to come from node 2, signed by `signer`, carrying
+the record of `recId`; the sealed message is a request under the keys a genuine node 2 derives. -/
+def hsFrom (signer recId : Id) : Ev :=
+  .dgram na2.addr (.handshake 2 6 { signer := signer, cd := cd1, eph := 77, dst := 1 } 77
+    (some { id := recId, seq := 1, udp4 := none, udp6 := none })
+    (.enc { eph := 77, cd := cd1, ini := 2, rcp := 1, toRcp := true } 6 0 (.request 9 0) true))
+
+/-- (a) node 1 challenges node 2's address; the handshake signed by node 2 arrives. -/
+def honest : List Ev := [.appWru na2 5 none, hsFrom 2 2]
+/-- (b) same, but signed by node 9 and carrying node 9's record, while claiming source id 2. -/
+def forged : List Ev := [.appWru na2 5 none, hsFrom 9 9]
+
+
+/-- (a) the honest handshake creates a session for node 2, which was never dialled: the right
+disjunct of `session_needs_proof` is the one that holds, and the session is reported. -/
+example : (run cfg honest).sessions.any (·.1 == na2) = true ∧ 2 ∉ dialled honest ∧
+    (∃ p ∈ handshakeSigs honest, p.2.signer = 2 ∧ p.2.dst = cfg.localId ∧ p.1 = na2) ∧
+    (outputs cfg honest).any (attributesTo 2) = true := by decide +kernel
+
+/-- (b) the forgery attempt: hypotheses of `no_forgery` hold for `x = 2` … -/
+example : ContactsWF forged ∧ (∀ p ∈ handshakeSigs forged, p.2.signer ≠ 2) ∧ 2 ∉ dialled forged :=
+  ⟨by simp [forged, hsFrom, ContactsWF], by decide +kernel, by decide +kernel⟩
+
+/-- … and indeed (computed, not via the theorem) there is no session for node 2 and no output
+attributed to node 2, although the datagram claimed source id 2 (the challenge is consumed). -/
+example : (run cfg forged).sessions = [] ∧ (outputs cfg forged).all (fun o => !attributesTo 2 o) = true ∧
+    (run cfg forged).challenges = [] := by decide +kernel
+
+/-- `no_forgery` applied to the forged history. -/
+example : (∀ e ∈ (run cfg forged).sessions, e.1.id ≠ 2) ∧ ∀ o ∈ outputs cfg forged, attributesTo 2 o = false :=
+  no_forgery cfg forged 2 (by simp [forged, hsFrom, ContactsWF]) (by decide +kernel) (by decide +kernel)
+
+/-! Counterexamples to the two original statements that were corrected above (both need a state
+that no history produces). -/
+
+def weird : Keys where
+  enc := { eph := 0, cd := 0, ini := 1, rcp := 99, toRcp := true }
+  dec := { eph := 0, cd := 0, ini := 1, rcp := 99, toRcp := false }
+
+def call2 : Call where
+  contact := { na := na2, record := some { id := 2, seq := 1, udp4 := none, udp6 := none } }
+  pkt := .message 1 7 .garbage
+  rid := 1
+  internal := false
+  body := 0
+  initiating := true
+
+/-- Ill-formed state: a request for node 3 is queued under node 2's address. -/
+def sBadQueue : HState where
+  sessions := [(na3, { keys := weird }, 0)]
+  active := [call2]
+  pending := [(na2, [{ contact := { na := na3, record := none }, rid := 5, internal := false, body := 0 }])]
+  rt := 5
+
+def eBad : NA × Session × Nat := (na3, { keys := weird, counter := 1 }, 5)
+
+/-- `initiator_keys_bound_cex`: the original statement of `initiator_keys_bound` fails here. -/
+example : eBad ∈ (step cfg sBadQueue (.dgram na2.addr (.whoareyou 7 42 0))).1.sessions ∧
+    eBad ∉ sBadQueue.sessions ∧ eBad.2.1.keys.enc.ini = cfg.localId ∧
+    eBad.2.1.keys.enc.rcp ≠ eBad.1.id := by decide +kernel
+
+/-- Ill-formed state: two cache entries for node 3's address, the older one expired. -/
+def sDup : HState where
+  sessions := [(na3, { keys := weird }, 0), (na3, { keys := weird, counter := 7 }, 100)]
+  challenges := [(na2, { cd := 1, remoteRec := none }, 0, 0)]
+  rt := 50
+
+def staleHs : Ev :=
+  .dgram na2.addr (.handshake 2 6 { signer := 2, cd := 2, eph := 77, dst := 1 } 77 none .garbage)
+
+/-- `stale_handshake_rejected_cex`: the original statement of `stale_handshake_rejected` (without
+`hnd`) fails here: one entry remains, the address filter selects two. -/
+example : (∀ e ∈ sDup.challenges, e.1 = na2 → e.2.1.cd ≠ 2) ∧
+    (step { cfg with sessionTtl := 10 } sDup staleHs).1.sessions.map (fun e => (e.1, e.2.1.keys)) ≠
+      (sDup.sessions.filter (fun e =>
+        (step { cfg with sessionTtl := 10 } sDup staleHs).1.sessions.any (·.1 == e.1))).map
+        (fun e => (e.1, e.2.1.keys)) := by decide +kernel
+
+end C01Ex
+
 end Discv5.H
